@@ -76,4 +76,135 @@ Theorem C05_errors_are_permanent :
 Proof. exact errors_are_permanent. Qed.
 Print Assumptions C05_errors_are_permanent.
 (* A stream that ends exactly between two messages is Props/C03 (C03_end_only_at_true_end).
-   Compressed messages: decided by the correspondence check only. *)
+   Compressed messages: the C05_Z_* theorems below (Proofs/CutZ.v). *)
+
+(* ------------------------------------------------------------------------------------------ *)
+(* The same for streams that may carry permessage-deflate messages (Proofs/CutZ.v).            *)
+(* [frame_accZ] / [seq_accZ] with the reader's [negotiated c] flag: RSV1 may be set when        *)
+(* compression was negotiated; a message whose first frame has RSV1 is read through the flate  *)
+(* reader ([read_raw] + [inflate] in the model).                                               *)
+(* ------------------------------------------------------------------------------------------ *)
+Require Import WS.Proofs.ReaderZ1 WS.Proofs.ReaderZ3 WS.Proofs.CutZ.
+
+(* Cut at ANY byte offset (inside a header, inside the payload of the first or of a continuation
+   frame, inside an interleaved control frame, or between two fragments: cut = [], o = true), any
+   fault, glued to the last bytes or not.  Every complete message is returned ([out_ofZ]: the
+   payload, or inflate (payload ++ tail) for a compressed one); then the failing call
+   [cut_outZ (ty, compressed, received) e]: RMsg ty received (Some e) for an uncompressed partial
+   message, RMsg ty [] (Some e) for a compressed one -- no bytes, [inflate] is not applied to a
+   partially received message; e is the mapped transport error, never nil / io.EOF / flate
+   error (C05_Z_failing_call_is_error); every later operation fails and delivers nothing. *)
+Theorem C05_Z_cut_stream_whole_messages_then_error :
+  forall inflate c b fs f cut suf o ops,
+    custom_handlers c = false -> binv b -> (125 <= bsize b)%nat ->
+    Forall wf_frame fs -> seq_accZ (server c) (negotiated c) false fs = Some o ->
+    wf_frame f -> frame_accZ (server c) (negotiated c) o f = true ->
+    encode_frame f = cut ++ suf -> suf <> [] ->
+    (cut <> [] \/ o = true) -> pending b = encode_frames fs ++ cut ->
+    blen (encode_frames fs) + blen (encode_frame f) < 2^63 ->
+    let ms := data_msgs (events_of fs) in
+    let e := of_berror (BErr (fault (src b))) in
+    exists rs s',
+      run_ops inflate c (init_rst b) (repeat OReadMessage (S (length ms)) ++ ops) =
+        (map (out_ofZ inflate) ms ++ cut_outZ (partial_ofZ fs f (length cut)) e :: rs, s') /\
+      Forall is_failure rs /\ rerror s' = Some e /\ outoffuel s' = false /\
+      wlog s' = map WPong (pings_of fs).
+Proof. exact cut_stream_errors_stickyZ. Qed.
+Print Assumptions C05_Z_cut_stream_whole_messages_then_error.
+
+(* the failing call: an error that is not io.EOF and not a flate error; a compressed partial
+   message comes back with no bytes at all *)
+Theorem C05_Z_failing_call_is_error :
+  forall m k, exists ty d,
+    cut_outZ m (of_berror (BErr k)) = RMsg ty d (Some (of_berror (BErr k))) /\
+    of_berror (BErr k) <> RIoEOF /\ of_berror (BErr k) <> RFlate /\
+    (snd (fst m) = true -> d = []).
+Proof. exact cut_outZ_is_error. Qed.
+Print Assumptions C05_Z_failing_call_is_error.
+
+(* which message is cut: the one the RFC defragmenter has open (type and RSV1 flag of its FIRST
+   frame, payload bytes so far + the received payload bytes of the cut frame) ... *)
+Theorem C05_Z_partial_open :
+  forall fs f n ty cz d, snd (events_from None fs) = Some (ty, cz, d) ->
+    partial_ofZ fs f n = (ty, cz, d ++ cut_payload f n).
+Proof. exact partial_ofZ_open. Qed.
+Print Assumptions C05_Z_partial_open.
+(* ... or the message that the cut frame itself starts (header complete) ... *)
+Theorem C05_Z_partial_first :
+  forall fs f n, snd (events_from None fs) = None -> is_control (opcode f) = false -> (hlen f <= n)%nat ->
+    partial_ofZ fs f n = (opcode f, rsv f =? 4, firstn (n - hlen f) (payload f)).
+Proof. exact partial_ofZ_first. Qed.
+Print Assumptions C05_Z_partial_first.
+(* ... or none (cut inside the header of a first frame / inside a control frame between messages) *)
+Theorem C05_Z_partial_none :
+  forall fs f n, snd (events_from None fs) = None ->
+    (is_control (opcode f) = true \/ (n < hlen f)%nat) -> partial_ofZ fs f n = (0, false, []).
+Proof. exact partial_ofZ_none. Qed.
+Print Assumptions C05_Z_partial_none.
+
+(* sticky, same error: the next n < 999 ReadMessage calls all return exactly that error and no
+   bytes (the 1000th failing call panics by design) *)
+Theorem C05_Z_later_calls_same_error :
+  forall inflate c b fs f cut suf o n,
+    custom_handlers c = false -> binv b -> (125 <= bsize b)%nat ->
+    Forall wf_frame fs -> seq_accZ (server c) (negotiated c) false fs = Some o ->
+    wf_frame f -> frame_accZ (server c) (negotiated c) o f = true ->
+    encode_frame f = cut ++ suf -> suf <> [] ->
+    (cut <> [] \/ o = true) -> pending b = encode_frames fs ++ cut ->
+    blen (encode_frames fs) + blen (encode_frame f) < 2^63 ->
+    (n < 999)%nat ->
+    let ms := data_msgs (events_of fs) in
+    let e := of_berror (BErr (fault (src b))) in
+    exists s',
+      run_ops inflate c (init_rst b) (repeat OReadMessage (S (length ms)) ++ repeat OReadMessage n) =
+        (map (out_ofZ inflate) ms ++ cut_outZ (partial_ofZ fs f (length cut)) e ::
+         repeat (RMsg 0 [] (Some e)) n, s') /\
+      rerror s' = Some e /\ outoffuel s' = false /\ wlog s' = map WPong (pings_of fs).
+Proof. exact cut_stream_same_errorZ. Qed.
+Print Assumptions C05_Z_later_calls_same_error.
+
+(* NextReader + Read on the partial message at the messageReader level (for a compressed message
+   these are the raw, still deflated bytes the flate reader pulls; the model has no separate
+   Read operation on the flate reader): bytes of the message in order with nil or the real
+   error, never io.EOF.  C05_reader_eof_only_at_true_end above already holds for every
+   configuration, compressed messages included. *)
+Theorem C05_Z_partial_message_reader_never_eof :
+  forall inflate c b fs f cut suf o l,
+    custom_handlers c = false -> binv b -> (125 <= bsize b)%nat ->
+    Forall wf_frame fs -> seq_accZ (server c) (negotiated c) false fs = Some o ->
+    wf_frame f -> frame_accZ (server c) (negotiated c) o f = true ->
+    encode_frame f = cut ++ suf -> suf <> [] ->
+    (cut <> [] \/ o = true) -> pending b = encode_frames fs ++ cut ->
+    blen (encode_frames fs) + blen (encode_frame f) < 2^63 ->
+    msg_started f cut o -> Forall (fun m => (0 < m)%nat) l ->
+    let ms := data_msgs (events_of fs) in
+    let ty := fst (fst (partial_ofZ fs f (length cut))) in
+    let d := snd (partial_ofZ fs f (length cut)) in
+    exists outs s',
+      run_ops inflate c (init_rst b) (repeat OReadMessage (length ms) ++ ONext :: map ORead l) =
+        (map (out_ofZ inflate) ms ++ RNext ty None :: outs, s') /\
+      Forall (read_out_ok (fault (src b))) outs /\
+      (exists rest, d = flat_map rdata outs ++ rest) /\ outoffuel s' = false.
+Proof. exact cut_stream_reader_apiZ. Qed.
+Print Assumptions C05_Z_partial_message_reader_never_eof.
+
+(* for EVERY reader state, peer byte stream, transport behaviour and configuration (no
+   conformance hypothesis): ReadMessage returns a nil error -- and, for a compressed message,
+   hands the collected bytes to [inflate] -- only when the final frame of the message has been
+   consumed completely ([outoffuel] is the model's own fuel flag, false in every run covered by
+   the theorems above) *)
+Theorem C05_Z_readmessage_nil_only_when_complete :
+  forall inflate c s ty d s',
+    read_message inflate c s = (RMsg ty d None, s') -> outoffuel s' = false ->
+    rfin s' = true /\ rem s' = 0.
+Proof. exact read_message_nil_only_at_end. Qed.
+Print Assumptions C05_Z_readmessage_nil_only_when_complete.
+
+(* the flate reader's pull of the raw bytes of a compressed message ends without error only at
+   the true end of the message *)
+Theorem C05_Z_raw_pull_complete_only_at_true_end :
+  forall fuel c acc s raw s',
+    rerror s = None -> read_raw fuel c acc s = (raw, None, s') -> outoffuel s' = false ->
+    rfin s' = true /\ rem s' = 0.
+Proof. exact read_raw_nil_only_at_end. Qed.
+Print Assumptions C05_Z_raw_pull_complete_only_at_true_end.
